@@ -39,7 +39,7 @@ func TestC10_Keys(t *testing.T) {
 			{Edge: 5, Fixed: cat(make([]byte, 31), []byte{0x80})}, {Edge: 5, Fixed: cat(make([]byte, 30), []byte{0x80, 0x00})}, {Edge: 5, Fixed: cat([]byte{0x7f}, bytes.Repeat([]byte{0xff}, 31))}, {Edge: 5, Fixed: cat([]byte{0x80}, make([]byte, 31))}}
 		n := len(mks)
 		if h.Thorough() {
-			for i := 0; i < 40; i++ {
+			for i := 0; i < 200; i++ {
 				mks = append(mks, MK{Edge: 4 * (i % 2), Seed: gen.Mix(h.Seed, 0x4b, uint64(i))})
 			}
 		}
